@@ -1699,6 +1699,10 @@ type vsC18Case struct {
 	Target  string      `json:"target"` // the container being created / started
 	Ann     []vsKV      `json:"ann"`
 	Roles   []string    `json:"roles"` // per annotation: <base>:<ctr|pod|other|lookalike> (diagnostics only)
+	// Pred: classes of earlier incarnations of the same namespace/pod/container names, each created,
+	// started and stopped with the pod-wide annotation class=<name> before the evaluations. The
+	// documented decision depends on the current annotations only, so they must not change any answer.
+	Pred []string `json:"pred,omitempty"`
 }
 
 func (cs *vsC18Case) configYAML() string {
@@ -1800,6 +1804,13 @@ func vsGenC18(r *vsRNG) *vsC18Case {
 	idx := r.Intn(len(cs.Ann) + 1)
 	cs.Ann = append(cs.Ann[idx:], cs.Ann[:idx]...)
 	cs.Roles = append(cs.Roles[idx:], cs.Roles[:idx]...)
+	if r.Chance(1, 2) {
+		for _, c := range cs.Classes {
+			if r.Chance(2, 3) {
+				cs.Pred = append(cs.Pred, c.Name)
+			}
+		}
+	}
 	return cs
 }
 
@@ -2049,6 +2060,21 @@ func vsRunC18(ctx *vsCtx, cs *vsC18Case, idx int, perm *vsRNG) {
 			res = vsRes{Panic: msg, Site: site}
 		}
 		return res
+	}
+	for i, cl := range cs.Pred {
+		// an earlier pod of the same name, judged by the same reference on its own annotations
+		ctx.logStep("case %d predecessor %d class %q %s.CreateContainer+StartContainer", idx, i, cl, vsPlugin)
+		pann := []vsKV{{vsS("class" + vsSuffix), vsS(cl)}}
+		pres := run("CreateContainer", pann, nil)
+		report(vsMTJudgeCreate(cs, pann, pres), "pred-"+strconv.Itoa(i))
+		pst := run("StartContainer", pann, nil)
+		report(vsMTJudgeStart(cs, pann, pst, cgPath, in.env.Bin), "pred-start-"+strconv.Itoa(i))
+		ctx.Eval()
+		ctx.Eval()
+		ctx.Count("predecessor_incarnations")
+	}
+	if len(cs.Pred) > 0 {
+		ctx.Count("cases_with_predecessor_incarnations")
 	}
 	var first vsRes
 	for e := 0; e < vsEvals; e++ {
